@@ -10,8 +10,15 @@ from common import hexs, Broken
 
 def ws_lines(ws):
     lines = ["ws-begin"] + [f"file\t{p}\t{hexs(t)}" for p, t in ws.files]
-    lines.append(f"root\t/w/p\t{','.join(str(i) for i in range(len(ws.files)))}")
-    lines.append(f"pkg\tp\t{len(ws.files) - 1}\t1\t-")
+    if getattr(ws, "roots", None):
+        # several source roots / packages with their direct dependencies (indices into the package list)
+        for (path, idxs) in ws.roots:
+            lines.append(f"root\t{path}\t{','.join(str(i) for i in idxs)}")
+        for (name, toml, local, deps) in ws.pkgs:
+            lines.append(f"pkg\t{name}\t{toml}\t{local}\t{','.join(str(d) for d in deps) if deps else '-'}")
+    else:
+        lines.append(f"root\t/w/p\t{','.join(str(i) for i in range(len(ws.files)))}")
+        lines.append(f"pkg\tp\t{len(ws.files) - 1}\t1\t-")
     lines.append("ws-end")
     return lines
 
